@@ -246,11 +246,21 @@ func (r *repeat) more(s bitStream) bool {
 	pCont := r.pContinue
 	if r.count < r.minCount {
 		pCont = 1
-	} else if r.forceStop || r.count >= r.maxCount {
+	} else if r.count >= r.maxCount {
 		pCont = 0
 	}
 
-	cont := flipBiasedCoin(s, pCont)
+	var cont bool
+	if r.forceStop {
+		// forceStop depends on rejected (discarded) attempts, which are absent
+		// when pruned data is replayed; record the forced stop as a zero coin,
+		// which reads as "stop" for any pContinue < 1
+		i := s.beginGroup(coinFlipLabel, false)
+		s.drawBits(0)
+		s.endGroup(i, false)
+	} else {
+		cont = flipBiasedCoin(s, pCont)
+	}
 	if cont {
 		r.count++
 	} else {
